@@ -3,6 +3,7 @@ package props
 import (
 	"bytes"
 	stdjson "encoding/json"
+	"errors"
 	"fmt"
 	"io"
 	"reflect"
@@ -125,13 +126,14 @@ func c07Text(item interface{}) string {
 }
 
 type c07Spec struct {
-	HasHeader bool          `json:"has_header"`
-	Header    []gen.Q       `json:"header"`
-	Rows      [][]c07Item   `json:"rows"` // nil entry = separator
-	Sep       []bool        `json:"separators"`
-	Skip0     interface{}   `json:"skipable_column0"` // nil unset
-	Skip      []interface{} `json:"skipable_columns"` // per column 1..n, nil unset
-	SetClear  bool          `json:"set_then_cleared"`
+	HasHeader   bool          `json:"has_header"`
+	Header      []gen.Q       `json:"header"`
+	HeaderKinds []int         `json:"header_item_kinds"` // 0 string, 1 Stringer, 2 GoStringer+error, 3 nested cell, 4 error
+	Rows        [][]c07Item   `json:"rows"`              // nil entry = separator
+	Sep         []bool        `json:"separators"`
+	Skip0       interface{}   `json:"skipable_column0"` // nil unset
+	Skip        []interface{} `json:"skipable_columns"` // per column 1..n, nil unset
+	SetClear    bool          `json:"set_then_cleared"`
 }
 
 func (s *c07Spec) ncols() int {
@@ -152,7 +154,23 @@ func (s *c07Spec) build() *tabular.ATable {
 	if s.HasHeader {
 		hs := make([]interface{}, len(s.Header))
 		for i := range hs {
-			hs[i] = string(s.Header[i])
+			txt := string(s.Header[i])
+			kind := 0
+			if i < len(s.HeaderKinds) {
+				kind = s.HeaderKinds[i]
+			}
+			switch kind {
+			case 1:
+				hs[i] = gen.VS_0{S: txt} // a Stringer whose text is the header
+			case 2:
+				hs[i] = &gen.PGE_0{G: txt, E: "<wrong: Error>"} // GoString wins over Error
+			case 3:
+				hs[i] = tabular.NewCell(txt) // nested cell
+			case 4:
+				hs[i] = errors.New(txt)
+			default:
+				hs[i] = txt
+			}
 		}
 		t.AddHeaders(hs...)
 	}
@@ -466,6 +484,12 @@ func c07Headers(r *gen.R, n int) []gen.Q {
 func c07Random(c *Ctx, i int, r *gen.R) {
 	n := r.Range(1, 5)
 	s := &c07Spec{HasHeader: true, Header: c07Headers(r, n)}
+	if r.Chance(1, 3) {
+		s.HeaderKinds = make([]int, n)
+		for k := range s.HeaderKinds {
+			s.HeaderKinds[k] = r.Intn(5)
+		}
+	}
 	nrows := r.Range(0, 6)
 	for k := 0; k < nrows; k++ {
 		if r.Chance(1, 4) {
@@ -605,7 +629,7 @@ func init() {
 		ID:    "C07",
 		Level: "exploration",
 		Rule: "phase 0 (exhaustive): every placement of separators among n<=5 rows (2^n masks) x 3 row flavours (full rows, short rows, all-empty rows in skipable columns); phase 1 (exhaustive): every assignment of {unset,true,false} to column 0 and 3 columns (81) x {direct, set-garbage-then-clear-then-set} on a table with empty/nil cells in every position, a short row, a zero-cell row and a separator; " +
-			"phase 2: random tables of 1-5 columns x 0-6 rows with unique non-empty valid-UTF-8 headers from ascii+html+md+wide+LF+csv+emoji alphabets, items of 18 JSON kinds (incl. field-less struct with String, json.Marshaler, nested Cell, chan, failing Marshaler), ragged/zero-cell rows, separators, random skipable assignments, and with probability 1/2 one of the listed misconfigurations (no header, too few headers, empty header, duplicate header, no columns, non-bool skipable on column 0 / a column) or an invalid-UTF-8 header (no-panic only). " +
+			"phase 2: random tables of 1-5 columns x 0-6 rows with unique non-empty valid-UTF-8 headers from ascii+html+md+wide+LF+csv+emoji alphabets (a third of the tables with header items that are Stringers, GoStringer+error types, nested cells or errors instead of strings), items of 18 JSON kinds (incl. field-less struct with String, json.Marshaler, nested Cell, chan, failing Marshaler), ragged/zero-cell rows, separators, random skipable assignments, and with probability 1/2 one of the listed misconfigurations (no header, too few headers, empty header, duplicate header, no columns, non-bool skipable on column 0 / a column) or an invalid-UTF-8 header (no-panic only). " +
 			"Output decoded with encoding/json (duplicate-key-aware token pass) and compared with the model. Distinct = distinct (headers, row kinds, separators, skipable assignment); non-trivial = at least one row.",
 		Assumptions: []string{
 			"values are compared as JSON values (compact bytes, else decoded equality), keys as decoded strings; key order and whitespace are not asserted",
